@@ -107,7 +107,15 @@ macro_rules! grid_alt {
     }};
 }
 
+/// rendering under catch_unwind: a panic is recorded as the rendering "<panic>", which no specification accepts
 pub fn style_event(s: Style, with_grid: bool) -> Value {
+    match std::panic::catch_unwind(move || style_event_inner(s, with_grid)) {
+        Ok(v) => v,
+        Err(_) => json!({"k":"style","st":style_json(&s),"alt":[b"<panic>".to_vec()],"reset":[b"<panic>".to_vec()]}),
+    }
+}
+
+fn style_event_inner(s: Style, with_grid: bool) -> Value {
     let mut alt: Vec<Vec<u8>> = Vec::new();
     let mut reset: Vec<Vec<u8>> = Vec::new();
     alt.push(format!("{}", s).into_bytes());
@@ -187,6 +195,14 @@ impl std::io::Write for Chunky {
 }
 
 pub fn color_event(c: Color, slot: &str, with_grid: bool) -> Value {
+    let slot_owned = slot.to_string();
+    match std::panic::catch_unwind(move || color_event_inner(c, &slot_owned, with_grid)) {
+        Ok(v) => v,
+        Err(_) => json!({"k":"color","slot":slot,"c":col_json(Some(c)),"alt":[b"<panic>".to_vec()]}),
+    }
+}
+
+fn color_event_inner(c: Color, slot: &str, with_grid: bool) -> Value {
     let mut alt: Vec<Vec<u8>> = Vec::new();
     match slot {
         "fg" => {
